@@ -769,11 +769,23 @@ Varable failures: {var_failed}
             return varlist
 
     def updatetflag(self, overwrite=None, startdate=None, tstep=None):
+        keeptimes = None
         if overwrite is None:
             overwrite = (
                 'TFLAG' not in self.variables or
                 self.variables['TFLAG'].shape[1] != self.NVARS
             )
+            if (
+                overwrite and 'TFLAG' in self.variables and
+                startdate is None and tstep is None
+            ):
+                # only the number of variables changed: keep the times the
+                # existing TFLAG holds (they may be irregular, e.g. after
+                # selecting time steps by an index list)
+                try:
+                    keeptimes = self.getTimes()
+                except Exception:
+                    keeptimes = None
 
         if overwrite:
             if 'TFLAG' in self.variables:
@@ -784,7 +796,11 @@ Varable failures: {var_failed}
             if tstep is not None:
                 self.TSTEP = tstep
 
-            times = self.getTimes()
+            if keeptimes is not None and \
+                    len(keeptimes) == len(self.dimensions['TSTEP']):
+                times = keeptimes
+            else:
+                times = self.getTimes()
             tvar = self.createVariable(
                 'TFLAG', 'i', ('TSTEP', 'VAR', 'DATE-TIME'))
             tvar.units = '<YYYYDDD,HHMMSS>'.ljust(16)
